@@ -19,6 +19,14 @@ use std::time::Duration;
 pub struct Msg {
     pub m: u64,
 }
+/// request whose handler spawns a task and replies with its JoinHandle (ask_join)
+pub struct JMsg {
+    pub m: u64,
+}
+/// runtime on which the tasks spawned by JMsg handlers live (driven only by `task` commands)
+pub static TASK_RT: Mutex<Option<tokio::runtime::Handle>> = Mutex::new(None);
+/// spawned tasks waiting to be told how to end, by request id
+pub static TASKS: Mutex<Option<HashMap<u64, tokio::sync::oneshot::Sender<String>>>> = Mutex::new(None);
 #[derive(Debug, Clone, PartialEq)]
 pub struct Val(pub u64);
 #[derive(Debug)]
@@ -162,6 +170,7 @@ fn build(kind: &str, h: u64, m: u64, d: u64) -> Option<(String, OpFut)> {
                     "ask" => Box::pin(async move { fin_val(r.ask(Msg { m }).await) }),
                     "tellT" => Box::pin(async move { fin_unit(r.tell_with_timeout(Msg { m }, dur).await) }),
                     "askT" => Box::pin(async move { fin_val(r.ask_with_timeout(Msg { m }, dur).await) }),
+                    "askJ" => Box::pin(async move { fin_val(r.ask_join(JMsg { m }).await) }),
                     "stop" => Box::pin(async move { fin_unit(r.stop().await) }),
                     "kill" => Box::pin(async move { fin_unit(r.kill()) }),
                     _ => return None,
@@ -216,7 +225,7 @@ pub struct Instr {
 
 impl Instr {
     pub fn new(own: &str, kind: &str, h: u64, d: u64) -> Option<Instr> {
-        let needs_m = matches!(kind, "tell" | "ask" | "tellT" | "askT");
+        let needs_m = matches!(kind, "tell" | "ask" | "tellT" | "askT" | "askJ");
         // ids are allocated only if the op can be built
         let m_peek = if needs_m { NEXT_M.load(Ordering::SeqCst) } else { 0 };
         let (a, inner) = build(kind, h, m_peek, d)?;
@@ -455,5 +464,40 @@ impl Message<Msg> for S {
 
     fn on_tell_result(result: &Val, r: &ActorRef<Self>) {
         emit(json!({"e": "TellResult", "a": name_of(r.identity().id), "m": result.0 / 100}));
+    }
+}
+
+impl Message<JMsg> for S {
+    type Reply = tokio::task::JoinHandle<Val>;
+    async fn handle(&mut self, msg: JMsg, _r: &ActorRef<Self>) -> tokio::task::JoinHandle<Val> {
+        self.nh += 1;
+        emit(json!({"e": "HEnter", "a": self.sh.name, "hook": "handler", "m": msg.m,
+                    "killed": false, "n": self.nh}));
+        let out = hook_gate(&self.sh, "Handler").await;
+        let v = msg.m * 100 + self.nh;
+        if out == "ok" || out == "slow" {
+            if out == "slow" {
+                std::thread::sleep(Duration::from_millis(3));
+            }
+            // the value the task will produce is fixed here; how it ends is decided by a later `task` command
+            let (tx, rx) = tokio::sync::oneshot::channel::<String>();
+            TASKS.lock().unwrap_or_else(|e| e.into_inner()).get_or_insert_with(HashMap::new).insert(msg.m, tx);
+            let rt = TASK_RT.lock().unwrap_or_else(|e| e.into_inner()).clone().expect("task runtime");
+            let jh = rt.spawn(async move {
+                match rx.await {
+                    Ok(o) if o == "ok" => Val(v),
+                    _ => panic!("scripted"),
+                }
+            });
+            hexit(&self.sh.name, "handler", msg.m, &out, v);
+            self.jl.push("h".into());
+            jh
+        } else {
+            if out == "slowpanic" {
+                std::thread::sleep(Duration::from_millis(3));
+            }
+            hexit(&self.sh.name, "handler", msg.m, if out == "slowpanic" { "slowpanic" } else { "panic" }, 0);
+            panic!("scripted")
+        }
     }
 }
